@@ -76,6 +76,9 @@ def seeded(uni: qgen.Universe) -> List[Tuple[str, set]]:
         # value is not visible there); what it declares at class level (miniAOD: the token) is still declared once
         (f'ds.Select(lambda e: e.{a}("b1")).Select(lambda ms: (Range(0, 2).Select(lambda i: ms.Count()), ms.Count()))', {"range", "revisit"}),
         (f'ds.Select(lambda e: e.{a}("b1")).Select(lambda ms: (Range(0, 2).Select(lambda i: ms.Select(lambda m: m.pt()).Sum()), ms.Select(lambda m: m.eta())))', {"range", "revisit"}),
+        # column labels that are not C++ identifiers: the class member that stores the column still has a C++ name
+        (f'ds.Select(lambda e: (e.{a}("b1").Count(), e.{b}("b1").Select(lambda t: t.pt()))).AsROOTTTree("f.root", "t", ["n-jets", "trk.pt"])', {"odd_labels"}),
+        (f'ds.Select(lambda e: e.{a}("b1").Count()).AsROOTTTree("f.root", "my tree", ["n jets"])', {"odd_labels"}),
         ((f'ds.Select(lambda e: e.{a}("b1").First().getAttributeFloat("emf"))' if uni.backend == "atlas"
           else f'ds.Select(lambda e: isNonnull(e.{a}("b1").First()))'), {"inject"}),
     ]
